@@ -514,6 +514,13 @@ func (s *Sim) handleOther(t *PendingTx, m *txMeta, obs *TxObs) {
 		s.envResult(m)
 	case "dust":
 		s.Stats.Count("dust_deposits")
+		if strings.HasPrefix(m.Op.Target, "mod:") {
+			if s.squatted(m.Op.Target[4:]) {
+				s.Stats.Fault("module_address_taken_by_plain_account:" + m.Op.Target[4:])
+			} else {
+				s.Stats.Count("deposit_to_existing_module_account")
+			}
+		}
 	}
 }
 
@@ -701,6 +708,16 @@ func (s *Sim) probes() {
 		}
 		if p.Poisoned {
 			continue // its delivery panicked; that is reported by the no-panic rule
+		}
+		bricked := false
+		for _, mod := range bridgeModules[[]string{"PROTOCOL_CCTP", "PROTOCOL_HYPERLANE", "PROTOCOL_INTERNAL"}[i]] {
+			if s.squatted(mod) {
+				bricked = true // nothing an operator can heal: the module's address is taken by a plain account
+			}
+		}
+		if bricked {
+			s.Stats.Count("probe_skipped_bridge_module_address_taken")
+			continue
 		}
 		if !decodeAck(p.Ack).Success {
 			s.violate("C08", "bounded-liveness", fmt.Sprintf("probe-refused route=%d", i), fmt.Sprintf("after all faults were healed and all pauses lifted, a known-good probe transfer was refused: %.300s", string(p.Ack)))
